@@ -22,7 +22,7 @@ ASSUMPTIONS = ['order of the aligned-axis union over non-identical inputs is not
                'values compared with == (NaN-aware); fill cells must be the fill value']
 
 KINDS = ('bool', 'int64', 'float64', '<U3', 'object', 'int32', 'M8[D]', 'M8[s]')   # (two datetime units: same kind, unlike dtypes)
-FILLS = [float('nan'), 0, 'ff', None, -1.5]
+FILLS = [float('nan'), 0, 'ff', None, -1.5, ('n/a', -1), (0, 1, 2)]   # (tuples: a fill value that is itself a sequence is one element per cell)
 INIT_ERRORS = ('ErrorInitFrame', 'ErrorInitIndex', 'ErrorInitIndexNonUnique', 'ErrorInitSeries')
 
 
